@@ -73,7 +73,7 @@ def parseSeen (s : String) : List Seen :=
     match item.splitOn ":" with
     | [sid, m, st, _, ip] => do
         let sid ← sid.toNat?; let m ← parseTagged 'm' m
-        pure { sid := sid, mac := m, est := st == "EST", hasIp := ip != "-", raw := item }
+        pure { sid := sid, mac := m, est := st == "EST", hasIp := ip != "-", addr := ip.toNat?, raw := item }
     | _ => none
 
 def field (impl key : String) : String :=
@@ -95,37 +95,16 @@ def parseObs (impl : String) : Obs :=
   let (free, alloc) := match (field impl "pool").splitOn "/" with
     | [f, a] => (f.toNat?.getD 0, a.toNat?.getD 0)
     | _ => (0, 0)
-  { seen := parseSeen (field impl "sess"), sent := parseSent (field impl "sent"), free := free, alloc := alloc }
-
-/-- the pool's own view (`held=`, `free=`): judged by three further clauses that are NOT part of `monitorCore`
-    (and so not covered by `monitor_silent_on_model`); the model-level statements they correspond to are
-    Spec.C16PppoeWhole.address_is_pool_entry / sessions_hold_distinct_addresses / held_address_not_free -/
-def poolView (impl : String) : List (String × String × String) :=
-  let pairs := fun (s : String) => if s == "-" || s.isEmpty then [] else
-    (s.splitOn ",").filterMap fun item => match item.splitOn ":" with
-      | [a, b] => some (a, b)
-      | _ => none
-  let held := pairs (field impl "held")
-  let free := let f := field impl "free"; if f == "-" || f.isEmpty then [] else f.splitOn ","
-  let sess := (let s := field impl "sess"; if s == "-" || s.isEmpty then [] else s.splitOn ",").filterMap fun item =>
+  let held := (let s := field impl "held"; if s == "-" || s.isEmpty then [] else s.splitOn ",").filterMap fun item =>
     match item.splitOn ":" with
-    | [sid, _, _, _, ip] => some (sid, ip)
+    | [a, b] => do let a ← a.toNat?; let b ← b.toNat?; pure (a, b)
     | _ => none
-  let v1 := sess.filterMap fun (sid, ip) =>
-    let rec_ := ((held.find? (·.1 == sid)).map (·.2)).getD "-"
-    if rec_ != ip then some ("pool-entry", "none", s!"session {sid} shows address {ip} but the pool records {rec_} for it") else none
-  let addrs := held.map (·.2)
-  let rec dups : List String → List String
-    | [] => []
-    | a :: rest => (if rest.contains a then [a] else []) ++ dups rest
-  let v2 := (dups addrs).map fun a => ("unique", "none", s!"address {a} is recorded for two live sessions")
-  let v3 := addrs.filterMap fun a =>
-    if free.contains a then some ("held-free", "none", s!"address {a} is held by a session and on the free list") else none
-  v1 ++ v2 ++ v3
+  let freeL := (let s := field impl "free"; if s == "-" || s.isEmpty then [] else s.splitOn ",").filterMap (·.toNat?)
+  { seen := parseSeen (field impl "sess"), sent := parseSent (field impl "sent"), free := free, alloc := alloc,
+    held := held, freeL := freeL }
 
 def monitor (mn : Mon) (i : In) (impl : String) : Mon × List (String × String × String) :=
-  let (mn', vs) := monitorCore mn i (parseObs impl)
-  (mn', vs ++ poolView impl)
+  monitorCore mn i (parseObs impl)
 
 structure St where
   model : Option Srv := none
